@@ -76,7 +76,7 @@ theorem rounds_down (g : Globals) (hg : g.dialect = .mysql) (hio : g.ignoreOrder
     obtain ⟨hpe, hpp, hpx⟩ := hrev p (by simp)
     have hsc' : UpScope dbH p.2 := hsc.of_equiv heq
     have hscD' : DownScope dbH p.2 := hscD.of_equiv heq
-    obtain ⟨d, out, hd, hU, ⟨db', he, hequ⟩, _⟩ := schema_spec_up g hg hio false h p.1 dbH p.2 hes hpe hpl hpp hex hpx
+    obtain ⟨d, out, hd, hU, ⟨db', he, hequ, hnmU⟩, _⟩ := schema_spec_up g hg hio false h p.1 dbH p.2 hes hpe hpl hpp hex hpx
       (fun tb htb => (hsc'.names tb htb).2) hsc'.both
     obtain ⟨d2, outD, hd2, hD, ⟨db'', heD, hequD⟩, _⟩ := schema_spec_down g hg hio false h p.1 dbH p.2 hes hpe hpl hpp hex hpx
       (fun tb htb => (hsc'.names tb htb).2)
